@@ -6,6 +6,8 @@ import Qryn.Gen.BatcherLocks
 import Qryn.Proofs.HandoffCompose
 import Qryn.Gen.ChunkReset
 import Qryn.Gen.RequestCopy
+import Qryn.Proofs.BatcherAlias
+import Qryn.Gen.BatcherAlias
 /-! # C02 — every INSERT block is rectangular and made only of whole submitted rows
 
 Property theorems only. Model: `Qryn.Ingest.Batcher` with concrete columns. Each `ProcessRequest` closure of
@@ -378,6 +380,118 @@ example : atomicProg [[.other], [.renew, .checkEmpty, .takeResults, .other, .tak
   decide
 
 end locks
+
+/-! ## requests that arrive WHILE AN INSERT IS IN FLIGHT: the promise arrays over an explicit heap
+
+In `Ingest.Batcher` the promises of the open batch (`svc.results`) and those of the portion in flight are values. In Go
+they are slice headers into backing arrays, and `Request` appends to `svc.results` while `client.Do` runs.
+`Ingest.BatcherAlias` (`ASvc`, `arun`) has the heap, and the flusher's iteration in three steps — `swap`, `insertBegin`
+(the copy of the promises, if the code makes one, is made; `client.Do` is entered), `insertEnd o` (the promises are read
+NOW and completed with `o`) — with requests possible between any two. `Gen.BatcherAlias.cfg` is regenerated from
+`writer/service/genericInsertService.go`. -/
+section inflight
+open Qryn.Ingest.BatcherAlias
+
+/-- **results_array_not_shared** (decided on the regenerated facts). After `swapBuffers` the open batch does not share a
+    backing array with the portion handed to the flusher: `svc.results` restarts on `nil` (or a new array), or the portion
+    got its own copy inside the hold. -/
+theorem results_array_not_shared : Gen.BatcherAlias.cfg.disciplined = true := by decide
+
+/-- **inflight_refines.** For EVERY configuration in which the two never share an array, every run of the heap machine
+    from `Init()` — requests before the swap, between the swap and the entry into `client.Do`, and while the INSERT is in
+    flight, any number of them, `append` growing or writing in place as the runtime pleases, any `Do` outcomes, pings,
+    stops — has exactly the events of the value machine `Ingest.Batcher` on the same requests with `swap`/`doResult` where
+    the heap machine has `swap`/`insertEnd` (`absRun`). So every trace property of `Ingest.Batcher` holds with the INSERT
+    as a window. -/
+theorem inflight_refines (cfg : Cfg) (hd : cfg.disciplined = true) (p : Plan) (maxQueue : Nat) (ops : List AOp) :
+    (arun cfg (ASvc.init p maxQueue) ops).2 =
+      (run (Svc.init p maxQueue) (BatcherAlias.absRun cfg (ASvc.init p maxQueue) ops)).2 :=
+  (arun_refines cfg hd ops _ (ainv_init p maxQueue)).1
+
+/-- **block_is_concat with requests during the INSERT**: for the regenerated configuration and plans, every block of
+    every run of the heap machine is the column-wise concatenation, in promise order, of what the requests whose
+    promises it completes submitted — whatever arrived while it was being inserted is in a later block and is completed
+    by that block. -/
+theorem block_is_concat_inflight (k : Kind) (maxQueue : Nat) (R : ReqId → Req) (ops : List AOp)
+    (hG : ∀ op ∈ ops, AGoodOp (Gen.Inserts.planOf k) R op) :
+    ∀ b w o, Event.insert b w o ∈ (arun Gen.BatcherAlias.cfg (ASvc.init (Gen.Inserts.planOf k) maxQueue) ops).2 →
+      BlockIsConcat (Gen.Inserts.planOf k) R b w := by
+  intro b w o h
+  rw [inflight_refines _ results_array_not_shared] at h
+  exact ((run_concat (plans_ok k) _ _ (cinit maxQueue) (BatcherAlias.absRun_good ops _ hG)).2 b w o h).1
+
+/-- the seeded variant: `svc.results = results[:0]`, the portion keeps the same array, `releaseWaiting` ranges over
+    `portion.res` -/
+def sharedCfg : Cfg := { afterSwap := .reslice, portionRes := .moved, release := .portion }
+
+/-- `results[:0]` with the copy of `fetchLoopIteration` still in place: the window shrinks to the instructions (and the
+    `OnBeforeInsert` callback) between the unlock of `swapBuffers` and the copy -/
+def lateCopyCfg : Cfg := { afterSwap := .reslice, portionRes := .moved, release := .copy }
+
+def flightReq (id : ReqId) (v : Nat) : Req :=
+  { id := id, ptype := .timeSamplesData, size := 30,
+    arrays := [("MTimestampNS", [v]), ("MFingerprint", [v + 1]), ("MType", [v + 2]), ("MValue", [v + 3]), ("MMessage", [v + 4])] }
+
+/-- request 1, flush: INSERT 0 in flight; request 2 arrives during the INSERT (`append` finds room in the old array);
+    INSERT 0 is accepted; next flush: INSERT 1 (the rows of request 2) fails -/
+def duringInsert : List AOp :=
+  [.request (flightReq 1 10) true, .trigger .timer, .connect true, .swap, .insertBegin, .request (flightReq 2 20) false,
+   .insertEnd .ok, .trigger .timer, .swap, .insertBegin, .insertEnd .err]
+
+/-- the same with request 2 arriving between `swapBuffers` and the entry into `client.Do` -/
+def beforeCopy : List AOp :=
+  [.request (flightReq 1 10) true, .trigger .timer, .connect true, .swap, .request (flightReq 2 20) false, .insertBegin,
+   .insertEnd .ok, .trigger .timer, .swap, .insertBegin, .insertEnd .err]
+
+/-- **shared_results_array_counterexample** (kernel-checked). With the shared array the promise of request 2 overwrites
+    slot 0, where the promise of request 1 was: the block with the rows of request 1 completes request 2 (with "ok"),
+    request 1 is never answered, and the block with the rows of request 2 — which fails — finds the promise already
+    completed. The first block is not the concatenation of what it resolves. -/
+theorem shared_results_array_counterexample :
+    sharedCfg.disciplined = false ∧
+    (arun sharedCfg (ASvc.init samplesPlan 0) duringInsert).2 =
+      [.insert [("type", [12]), ("fingerprint", [11]), ("timestamp_ns", [10]), ("string", [14]), ("value", [13])] [2] .ok,
+       .resolved 2 .ok,
+       .insert [("type", [22]), ("fingerprint", [21]), ("timestamp_ns", [20]), ("string", [24]), ("value", [23])] [2] .err,
+       .resolved 2 .err] ∧
+    1 ∉ resolvedIds (arun sharedCfg (ASvc.init samplesPlan 0) duringInsert).2 ∧
+    ¬ BlockIsConcat samplesPlan (fun id => flightReq id (10 * id))
+        [("type", [12]), ("fingerprint", [11]), ("timestamp_ns", [10]), ("string", [14]), ("value", [13])] [2] := by
+  refine ⟨by decide, by decide, by decide, ?_⟩
+  intro h
+  have := h.2 "type" (by decide)
+  revert this
+  decide
+
+/-- **late_copy_counterexample** (kernel-checked). Keeping the copy in `fetchLoopIteration` does not help when
+    `svc.results` re-slices the old array: a request between `swapBuffers` and the copy does the same damage; one that
+    arrives after the copy does not (second conjunct). -/
+theorem late_copy_counterexample :
+    lateCopyCfg.disciplined = false ∧
+    (arun lateCopyCfg (ASvc.init samplesPlan 0) beforeCopy).2 = (arun sharedCfg (ASvc.init samplesPlan 0) duringInsert).2 ∧
+    (arun lateCopyCfg (ASvc.init samplesPlan 0) duringInsert).2 =
+      [.insert [("type", [12]), ("fingerprint", [11]), ("timestamp_ns", [10]), ("string", [14]), ("value", [13])] [1] .ok,
+       .resolved 1 .ok,
+       .insert [("type", [22]), ("fingerprint", [21]), ("timestamp_ns", [20]), ("string", [24]), ("value", [23])] [2] .err,
+       .resolved 2 .err] := by
+  refine ⟨by decide, by decide, by decide⟩
+
+/-- the two schedules on the code as it is (regenerated configuration): request 1 is told the outcome of INSERT 0,
+    request 2 that of INSERT 1 — also when `append` writes in place (non-vacuity of `block_is_concat_inflight`) -/
+example :
+    (arun Gen.BatcherAlias.cfg (ASvc.init samplesPlan 0) duringInsert).2 =
+      [.insert [("type", [12]), ("fingerprint", [11]), ("timestamp_ns", [10]), ("string", [14]), ("value", [13])] [1] .ok,
+       .resolved 1 .ok,
+       .insert [("type", [22]), ("fingerprint", [21]), ("timestamp_ns", [20]), ("string", [24]), ("value", [23])] [2] .err,
+       .resolved 2 .err] ∧
+    (arun Gen.BatcherAlias.cfg (ASvc.init samplesPlan 0) beforeCopy).2 =
+      (arun Gen.BatcherAlias.cfg (ASvc.init samplesPlan 0) duringInsert).2 := by
+  refine ⟨by decide, by decide⟩
+
+/-- a re-slice is harmless when the portion got its own copy inside the hold: accepted by `disciplined` -/
+example : ({ afterSwap := .reslice, portionRes := .copied, release := .portion } : Cfg).disciplined = true := by decide
+
+end inflight
 
 /-! ## the model mirrors Go column by column: non-rectangular input gives non-rectangular columns -/
 
